@@ -949,10 +949,13 @@ def z3val_to_py(v):
     return str(fractions.Fraction(v.numerator_as_long(),
                                   v.denominator_as_long()))
   if z3.is_fp(v):
-    if z3.is_fp_value(v) or True:
-      bv = z3.simplify(z3.fpToIEEEBV(v))
-      if z3.is_bv_value(bv):
-        return {'fpbits': bv.as_long(), 'width': bv.size()}
+    w = v.sort().ebits() + v.sort().sbits()
+    if z3.is_fp_value(v) and v.isNaN():
+      return {'fpbits': {16: 0x7e00, 32: 0x7fc00000,
+                         64: 0x7ff8000000000000}[w], 'width': w}
+    bv = z3.simplify(z3.fpToIEEEBV(v))
+    if z3.is_bv_value(bv):
+      return {'fpbits': bv.as_long(), 'width': bv.size()}
   if z3.is_algebraic_value(v):
     return str(v.approx(20))
   if z3.is_string_value(v):
